@@ -174,6 +174,20 @@ func addUniq(l []string, seen map[string]bool, xs ...string) []string {
 	return l
 }
 
+// guard runs f and returns the panic text if the code under test panicked
+func guard(f func()) (p string) {
+	defer func() {
+		if r := recover(); r != nil {
+			p = fmt.Sprint(r)
+			if p == "" {
+				p = "panic"
+			}
+		}
+	}()
+	f()
+	return ""
+}
+
 func rowID(rows []row, name string) uint64 {
 	for _, r := range rows {
 		if r.Name == name {
@@ -334,7 +348,11 @@ func run(sc *scenario) (coq string, tags []string, err error) {
 	expectSid := map[string]uint64{} // new name of a completed rename -> singleton ID the old name had
 	var proc *process
 	nextKey := uint64(300001)
+	abandoned := false // the code under test panicked: the instance is given up after this step
 	for _, s := range sc.Steps {
+		if abandoned {
+			break
+		}
 		obs := &stepObs{}
 		s.Obs = obs
 		active, fired = s.Fault, false
@@ -345,7 +363,12 @@ func run(sc *scenario) (coq string, tags []string, err error) {
 				return "", nil, e0
 			}
 			inRename, nWrites = true, 0
-			e := rename(st, s.Old, s.New)
+			var e error
+			if p := guard(func() { e = rename(st, s.Old, s.New) }); p != "" {
+				e = fmt.Errorf("%w: %s", errPanic, p)
+				tagset["panic-in-code-under-test"] = true
+				abandoned = true
+			}
 			inRename, active = false, nil
 			obs.Code = errClass(e)
 			if e != nil {
@@ -402,7 +425,12 @@ func run(sc *scenario) (coq string, tags []string, err error) {
 				docs = append(docs, pkgName+"."+d)
 			}
 			sort.Strings(docs)
-			as, e := proc.get()
+			var as istructs.IAppStructs
+			if p := guard(func() { as, e = proc.get() }); p != "" {
+				e = fmt.Errorf("%w: %s", errPanic, p)
+				tagset["panic-in-code-under-test"] = true
+				abandoned = true
+			}
 			proc.ready = e == nil
 			active = nil
 			obs.Code = errClass(e)
@@ -424,104 +452,113 @@ func run(sc *scenario) (coq string, tags []string, err error) {
 			}
 			var recTerms []string
 			if e == nil {
-				ps := addUniq(append([]string{}, probes...), copySeen(seen), qn...)
-				for _, n := range ps {
-					id, e1 := as.QNameID(appdef.MustParseQName(n))
-					obs.QIDs = append(obs.QIDs, lookup{n, e1 == nil, uint64(id)})
-					sid, e2 := as.Records().GetSingletonID(appdef.MustParseQName(n))
-					obs.SIDs = append(obs.SIDs, lookup{n, e2 == nil, uint64(sid)})
-				}
-				for _, n := range s.Puts {
-					if !proc.docs[strings.TrimPrefix(n, pkgName+".")] {
-						continue
+				// observing the running application calls into the code under test: a panic there is
+				// an outcome of the step (never accepted by `agrees` / `satisfies`), not the end of the run
+				if p := guard(func() {
+					ps := addUniq(append([]string{}, probes...), copySeen(seen), qn...)
+					for _, n := range ps {
+						id, e1 := as.QNameID(appdef.MustParseQName(n))
+						obs.QIDs = append(obs.QIDs, lookup{n, e1 == nil, uint64(id)})
+						sid, e2 := as.Records().GetSingletonID(appdef.MustParseQName(n))
+						obs.SIDs = append(obs.SIDs, lookup{n, e2 == nil, uint64(sid)})
 					}
-					key := nextKey
-					nextKey++
-					e3 := as.Records().PutJSON(1, map[appdef.FieldName]any{
-						appdef.SystemField_ID: json.Number(fmt.Sprint(key)), appdef.SystemField_QName: n})
-					res := "ok"
-					if e3 != nil {
-						res = "err: " + e3.Error()
-					} else {
-						keys = append(keys, key)
-					}
-					obs.Recs = append(obs.Recs, recObs{"put", key, n, res})
-					recTerms = append(recTerms, fmt.Sprintf("RPut %s %s %s", num(key), nm(n), kit.Bool(e3 == nil)))
-				}
-				for _, key := range append(append([]uint64{}, keys...), 299999) {
-					rec, e4 := as.Records().Get(1, true, istructs.RecordID(key))
-					var res, term string
-					switch {
-					case e4 != nil:
-						res, term = "err: "+e4.Error(), "DErr"
-					case rec.QName() == appdef.NullQName:
-						res, term = "absent", "DAbsent"
-					default:
-						res, term = rec.QName().String(), fmt.Sprintf("(DName %s)", nm(rec.QName().String()))
-					}
-					obs.Recs = append(obs.Recs, recObs{"get", key, "", res})
-					recTerms = append(recTerms, fmt.Sprintf("RGet %s %s", num(key), term))
-				}
-				// one record per container of the running schema: the row stores the container ID, the
-				// read maps it back to a name (round trip name -> ID -> name of the containers registry)
-				if proc.hasRec {
-					seenC := map[string]bool{}
-					for _, c := range cn {
-						if seenC[c] {
+					for _, n := range s.Puts {
+						if !proc.docs[strings.TrimPrefix(n, pkgName+".")] {
 							continue
 						}
-						seenC[c] = true
 						key := nextKey
 						nextKey++
-						e5 := putRecord(as, key, c)
+						e3 := as.Records().PutJSON(1, map[appdef.FieldName]any{
+							appdef.SystemField_ID: json.Number(fmt.Sprint(key)), appdef.SystemField_QName: n})
 						res := "ok"
-						if e5 != nil {
-							res = "err: " + e5.Error()
+						if e3 != nil {
+							res = "err: " + e3.Error()
 						} else {
-							ckeys = append(ckeys, key)
+							keys = append(keys, key)
 						}
-						obs.Recs = append(obs.Recs, recObs{"putc", key, c, res})
-						recTerms = append(recTerms, fmt.Sprintf("RPutC %s %s %s %s", num(key), nm(pkgName+".rec"), nm(c), kit.Bool(e5 == nil)))
+						obs.Recs = append(obs.Recs, recObs{"put", key, n, res})
+						recTerms = append(recTerms, fmt.Sprintf("RPut %s %s %s", num(key), nm(n), kit.Bool(e3 == nil)))
 					}
-				}
-				for _, key := range append(append([]uint64{}, ckeys...), 299998) {
-					rec, e6 := as.Records().Get(1, true, istructs.RecordID(key))
-					var res, term string
-					switch {
-					case e6 != nil:
-						res, term = "err: "+e6.Error(), "DErr"
-					case rec.QName() == appdef.NullQName:
-						res, term = "absent", "DAbsent"
-					default:
-						res, term = "container "+rec.Container(), fmt.Sprintf("(DName %s)", nm(rec.Container()))
-					}
-					obs.Recs = append(obs.Recs, recObs{"getc", key, "", res})
-					recTerms = append(recTerms, fmt.Sprintf("RGetC %s %s", num(key), term))
-				}
-				// finding C10-F2: a renamed singleton type is handed a new singleton ID
-				inSn := map[string]bool{}
-				for _, n := range sn {
-					inSn[n] = true
-				}
-				for _, l := range obs.SIDs {
-					if !l.Ok || !inSn[l.Name] {
-						continue
-					}
-					if want, ok := expectSid[l.Name]; ok {
-						if want != l.ID {
-							tagset["C10-F2:renamed-singleton-got-new-id"] = true
+					for _, key := range append(append([]uint64{}, keys...), 299999) {
+						rec, e4 := as.Records().Get(1, true, istructs.RecordID(key))
+						var res, term string
+						switch {
+						case e4 != nil:
+							res, term = "err: "+e4.Error(), "DErr"
+						case rec.QName() == appdef.NullQName:
+							res, term = "absent", "DAbsent"
+						default:
+							res, term = rec.QName().String(), fmt.Sprintf("(DName %s)", nm(rec.QName().String()))
 						}
-						delete(expectSid, l.Name)
+						obs.Recs = append(obs.Recs, recObs{"get", key, "", res})
+						recTerms = append(recTerms, fmt.Sprintf("RGet %s %s", num(key), term))
 					}
-					sidOf[l.Name] = l.ID
-				}
-				// observed collisions among the names of the running schema
-				contLookups := make([]lookup, len(obs.Dump.C))
-				for i, r := range obs.Dump.C {
-					contLookups[i] = lookup{r.Name, true, r.ID}
-				}
-				if collision(obs.QIDs, qn) || collision(contLookups, cn) || collision(obs.SIDs, sn) {
-					tagset["collision-observed"] = true
+					// one record per container of the running schema: the row stores the container ID, the
+					// read maps it back to a name (round trip name -> ID -> name of the containers registry)
+					if proc.hasRec {
+						seenC := map[string]bool{}
+						for _, c := range cn {
+							if seenC[c] {
+								continue
+							}
+							seenC[c] = true
+							key := nextKey
+							nextKey++
+							e5 := putRecord(as, key, c)
+							res := "ok"
+							if e5 != nil {
+								res = "err: " + e5.Error()
+							} else {
+								ckeys = append(ckeys, key)
+							}
+							obs.Recs = append(obs.Recs, recObs{"putc", key, c, res})
+							recTerms = append(recTerms, fmt.Sprintf("RPutC %s %s %s %s", num(key), nm(pkgName+".rec"), nm(c), kit.Bool(e5 == nil)))
+						}
+					}
+					for _, key := range append(append([]uint64{}, ckeys...), 299998) {
+						rec, e6 := as.Records().Get(1, true, istructs.RecordID(key))
+						var res, term string
+						switch {
+						case e6 != nil:
+							res, term = "err: "+e6.Error(), "DErr"
+						case rec.QName() == appdef.NullQName:
+							res, term = "absent", "DAbsent"
+						default:
+							res, term = "container "+rec.Container(), fmt.Sprintf("(DName %s)", nm(rec.Container()))
+						}
+						obs.Recs = append(obs.Recs, recObs{"getc", key, "", res})
+						recTerms = append(recTerms, fmt.Sprintf("RGetC %s %s", num(key), term))
+					}
+					// finding C10-F2: a renamed singleton type is handed a new singleton ID
+					inSn := map[string]bool{}
+					for _, n := range sn {
+						inSn[n] = true
+					}
+					for _, l := range obs.SIDs {
+						if !l.Ok || !inSn[l.Name] {
+							continue
+						}
+						if want, ok := expectSid[l.Name]; ok {
+							if want != l.ID {
+								tagset["C10-F2:renamed-singleton-got-new-id"] = true
+							}
+							delete(expectSid, l.Name)
+						}
+						sidOf[l.Name] = l.ID
+					}
+					// observed collisions among the names of the running schema
+					contLookups := make([]lookup, len(obs.Dump.C))
+					for i, r := range obs.Dump.C {
+						contLookups[i] = lookup{r.Name, true, r.ID}
+					}
+					if collision(obs.QIDs, qn) || collision(contLookups, cn) || collision(obs.SIDs, sn) {
+						tagset["collision-observed"] = true
+					}
+				}); p != "" {
+					obs.Recs = append(obs.Recs, recObs{"panic", 0, "", p})
+					recTerms = append(recTerms, "RPanic")
+					tagset["panic-in-code-under-test"] = true
+					abandoned = true
 				}
 			}
 			// the stored state F20 leads to: a registry that once had rows without a version row
